@@ -293,7 +293,7 @@ def gen(rng, i, tier):
             "mapseed": rng.randrange(10 ** 6), "malformed": malformed}
 
 
-_SHRINK = {"left": 1200}     # candidates a worker process may try in total (keeps a run with
+_SHRINK = {"left": 250}     # candidates a worker process may try in total (keeps a run with
 #                              many failing cases, e.g. under a mutation, within its time budget)
 
 
@@ -334,6 +334,22 @@ def _shrink(case):
 
 
 # ------------------------------------------------------------------ check
+_NONCE = [0]
+
+
+def ask(M, req):
+    """M.ask with a nonce echoed by the driver: an answer left in the pipe by a request that was
+    interrupted by the per-case time limit is skipped instead of being taken for this one"""
+    _NONCE[0] += 1
+    n = str(_NONCE[0])
+    ans = M.ask(req + [int(n)])
+    for _ in range(4):
+        if isinstance(ans, list) and ans and ans[-1] == n:
+            return ans
+        ans = M.sexp.parse(M.p.stdout.readline().rstrip("\n"))
+    raise RuntimeError("model driver out of step with the harness")
+
+
 def untree(w):
     return (str(w[0]), tuple(untree(k) for k in w[1:]))
 
@@ -449,13 +465,13 @@ def check(case, M):
                 l0, a0 = mrng.choice(ks)
                 reads.append((l0, tuple(reversed(a0))))
             mop = "map" if o == "map_noninj" else o
-            ans = M.ask([Sym("c07.op"), mop, wpre, wB, params, depth, walpha, wx,
-                         [[l, [wq(a) for a in args]] for l, args in reads]])
+            ans = ask(M, [Sym("c07.op"), mop, wpre, wB, params, depth, walpha, wx,
+                          [[l, [wq(a) for a in args]] for l, args in reads]])
             if ans[0] != "ok":
                 failures.append({"kind": "corr", "what": f"model {o}: fuel exhausted", "detail": str(ans)})
                 stop = True
                 break
-            _, maut, mstates, mb, sb, mxb, sxb, mreads, cert = ans
+            _, maut, mstates, mb, sb, mxb, sxb, mreads, cert, _nonce = ans
             if o in ("minimise", "minimise_map") and cert != "1":
                 failures.append({"kind": "corr", "what": "minimise: the model's final partition fails the congruence certificate",
                                  "detail": f"step {opi}: hypothesis of theorem C07_min_lang_cert is false on this input (cert={cert})"})
